@@ -16,10 +16,11 @@ import Gts.Model.OpsRepair
 import Gts.Model.OpsParse
 import Gts.Model.OpsGenBank
 import Gts.Model.OpsKeyEnc
+import Gts.Model.OpsGbSlice
 namespace Gts
 
 def evalOp (op : String) (args : List Sexp) : Option String :=
-  [evalCore, evalOrigin, evalNuc, evalCache, evalFeat, evalIO, evalMem, evalCli, evalReg, evalGb, evalLocator, evalRepair, evalParse, evalGenBank, evalKeyEnc].firstM fun h => h op args
+  [evalCore, evalOrigin, evalNuc, evalCache, evalFeat, evalIO, evalMem, evalCli, evalReg, evalGb, evalLocator, evalRepair, evalParse, evalGenBank, evalKeyEnc, evalGbSlice].firstM fun h => h op args
 
 def evalLine (line : String) : String :=
   match Sexp.parseLine line with
